@@ -60,11 +60,13 @@ def _quantified_subtrees(tree, acc):
     return acc
 
 
-def gen_plan(seed, prop, faults):
+def gen_plan(seed, prop, faults, nested=False):
     rng = random.Random(seed)
     cfg = {
         'prop': prop,
         'faults': bool(faults),
+        'nested': bool(nested),
+        'nest_rate': rng.choice([0.2, 0.4]) if nested else 0.0,
         'fault_rate': rng.choice([0.1, 0.25]) if faults else 0.0,
         'nstruct': rng.randint(2, 4) if prop == 'C19' else rng.randint(3, 5),
         'nops': rng.randint(10, 40),
@@ -231,6 +233,15 @@ def gen_plan(seed, prop, faults):
                            'u': rng.random()}
             if rng.random() < 0.5:
                 op['fault']['in'] = rng.choice(HOT)
+        elif cfg['nested'] and rng.random() < cfg['nest_rate']:
+            # a complete second call runs at a line event inside this one
+            if calls and rng.random() < 0.5:
+                q2 = dict(ops[rng.choice(calls)]['q'])
+            else:
+                q2 = gen_query()
+            op['nest'] = {'q': q2, 'u': rng.random()}
+            if rng.random() < 0.5:
+                op['nest']['in'] = rng.choice(HOT)
         ops.append(op)
         calls.append(len(ops) - 1)
     return {'prop': prop, 'cfg': cfg, 'formulas': formulas,
@@ -413,8 +424,10 @@ def execute(plan):
     for op in ops:
         if op['op'] == 'call':
             distinct.setdefault(qkey(op['q']), op['q'])
-            if 'fault' in op:
+            if 'fault' in op or 'nest' in op:
                 need_lines.add(qkey(op['q']))
+            if 'nest' in op:
+                distinct.setdefault(qkey(op['nest']['q']), op['nest']['q'])
     pristine = {}
     for k in sorted(distinct):
         st, r = run_isolated(pristine_outcome,
@@ -430,7 +443,7 @@ def execute(plan):
     results = {}          # op index -> [set object, value at return, mutated]
     events = []
     pred = _trace_pred()
-    fstate = {'armed': None, 'n': 0, 'fired': None}
+    fstate = {'armed': None, 'n': 0, 'fired': None, 'nested_out': None}
 
     def local(frame, event, arg):
         if event == 'line' and fstate['armed'] is not None:
@@ -442,6 +455,19 @@ def execute(plan):
                                    os.path.basename(
                                        frame.f_code.co_filename),
                                    frame.f_lineno]
+                if kind == 'nested':
+                    # a complete call B in the middle of call A (tracing is
+                    # suspended by the interpreter inside a trace function)
+                    q2 = fstate['nested_q']
+                    try:
+                        r2 = pool.call(q2)
+                        fstate['nested_out'] = _canon_outcome(
+                            r2, pool.K[q2['k']])
+                    except core.HarnessError:
+                        raise
+                    except Exception as e:
+                        fstate['nested_out'] = ['raise', type(e).__name__]
+                    return local
                 raise FAULT_KINDS[kind]('injected by the simulator')
         return local
 
@@ -496,6 +522,11 @@ def execute(plan):
         k = qkey(q)
         ref = pristine[k]
         fault = op.get('fault') if not final else None
+        nest = op.get('nest') if not final else None
+        if nest is not None:
+            fault = {'kind': 'nested', 'u': nest['u'], 'in': nest.get('in')}
+            fstate['nested_q'] = nest['q']
+            fstate['nested_out'] = None
         fired = None
         armed = False
         if fault is not None:
@@ -532,6 +563,24 @@ def execute(plan):
             out = ['aborted', 'SimAbort']
         except Exception as e:
             out = ['raise', type(e).__name__]
+        if nest is not None:
+            if fired is not None:
+                faults['nested_call'] = faults.get('nested_call', 0) + 1
+                probe('nested_call_inside_' + fired[0].strip('_'))
+                ref2 = pristine[qkey(nest['q'])]
+                if fstate['nested_out'] != ref2['o']:
+                    q2 = nest['q']
+                    raise Violation(
+                        prop + '/I2-depends-on-history',
+                        'op {}: {}.modelcheck(structure {}, formula {}) '
+                        'run at a line event inside {} of another call '
+                        'gave {} but {} in a process with no history'
+                        .format(i, q2['mc'], q2['k'], q2['f'], fired[0],
+                                core.cjson(fstate['nested_out'])[:300],
+                                core.cjson(ref2['o'])[:300]))
+            # the outer call must be unaffected by the nested one
+            fired = None
+            fault = None
         if fired is None:
             probe('calls_' + (out[0] if out[0] != 'raise'
                               else 'raised_' + out[1]))
@@ -542,7 +591,7 @@ def execute(plan):
                 counters['swallowed_fault_returns'] += 1
                 if out != ref['o']:
                     counters['swallowed_fault_returns_differing'] += 1
-        elif fault is not None:
+        elif fault is not None and nest is None:
             probe('fault_armed_but_not_reached')
         # I2: a call in which no fault fired behaves as in a pristine process
         if fired is None and out != ref['o']:
@@ -675,7 +724,9 @@ def execute(plan):
     fired_total = sum(v for k, v in faults.items() if k in FAULT_KINDS)
     if prop == 'C07':
         nontrivial = len(pool.K) >= 2 and repeated and \
-            (not plan['cfg']['faults'] or fired_total >= 1)
+            (not plan['cfg']['faults'] or fired_total >= 1) and \
+            (not plan['cfg'].get('nested') or
+             faults.get('nested_call', 0) >= 1)
     else:
         nontrivial = any(k.startswith('caller_mutated') for k in faults) \
             and mut_requery
@@ -715,14 +766,15 @@ def minimise_plan(plan, cls, timeout):
     p = mk(keep)
     # drop fault annotations that are not needed
     for i in keep:
-        if 'fault' in p['ops'][i]:
-            q = dict(p)
-            q['ops'] = list(p['ops'])
-            o = dict(q['ops'][i])
-            del o['fault']
-            q['ops'][i] = o
-            if _violates(q, cls, timeout)[0]:
-                p = q
+        for ann in ('fault', 'nest'):
+            if ann in p['ops'][i]:
+                q = dict(p)
+                q['ops'] = list(p['ops'])
+                o = dict(q['ops'][i])
+                del o[ann]
+                q['ops'][i] = o
+                if _violates(q, cls, timeout)[0]:
+                    p = q
     return p
 
 
